@@ -718,7 +718,8 @@ static void exec_common(const plan_t *p)
     strelems = (int)plan_get(p, "strelems", 0);
     if (plan_get(p, "ns", 0)) {
         /* a name service that knows the words the URL texts use: the parser then allocates a port of its own */
-        simns_add_proto("tcp", 6); simns_add_proto("udp", 17);
+        if (plan_get(p, "ns", 0) != 2) { simns_add_proto("tcp", 6); simns_add_proto("udp", 17); }
+        else probe_hit("services_without_a_protocol_table");      /* ns == 2 (plans written after seeded round 14): the services are listed, the protocols they name are not -- the parse gives up half way, with components already built */
         simns_add_serv("http", "tcp", 80); simns_add_serv("mailto", "udp", 25); simns_add_serv("proto", "sctp", 7); simns_add_serv("a", "tcp", 65535);
     }
     vobj_reset();
@@ -868,11 +869,12 @@ static void gen_common(plan_t *p, rng_t *r, int c05)
     int nops = rng_range(r, 4, (c05 ? 30 : 60) * sim_tier_scale()), kinds[NSLOT], ex[NSLOT] = { 0 }, focus = (int)rng_below(r, K_NKINDS);
     plan_knob(p, "strelems", rng_chance(r, 1, 4));
     plan_knob(p, "alloc.fill", rng_range(r, 0, 4));
+    plan_knob(p, "alloc.zero", rng_chance(r, 1, 4)); plan_knob(p, "alloc.realloc0", rng_chance(r, 1, 4));      /* the two readings ISO C allows for a request of no bytes */
     plan_knob(p, "alloc.realloc", rng_range(r, 0, 2));
     plan_knob(p, "alloc.reuse", rng_range(r, 0, 2));
     plan_knob(p, "alloc.place", rng_chance(r, 1, 4));
     plan_knob(p, "iters_last", rng_chance(r, 1, 2));
-    plan_knob(p, "ns", rng_chance(r, 1, 3));
+    plan_knob(p, "ns", rng_chance(r, 1, 3) ? rng_range(r, 1, 2) : 0);
     for (int i = 0; i < nops; i++) {
         int s = (int)rng_below(r, NSLOT), k = (int)rng_below(r, 100);
         op_t *o;
